@@ -43,6 +43,31 @@ def run(model: RepoModel, rep, tier: str):
                        "public view after every successful add/remove", min_instances=4)
     rep.rule("C19.R4", "PathTrie.add_path handles all four prefix relations: equal -> reject, proper prefix of stored -> reject, "
                        "stored proper prefix -> evict then insert, divergent -> insert", min_instances=4)
+    # the loader that persists the paths mirrors the manager's set: save() replaces, never merges
+    rep.rule("C19.R6", "what is persisted is the manager's current set: CallPathLoader.save replaces the loader's set with the one it is given "
+                       "(a superseded prefix or a removed path must not survive in the store)", 1)
+    lm = model.module("util/loader.py")
+    cpl = lm.classes.get("CallPathLoader")
+    if cpl is None or "save" not in cpl.methods:
+        raise AnalysisError("CallPathLoader.save vanished")
+    sv = cpl.methods["save"]
+    prm = sv.params[1] if len(sv.params) > 1 else None
+    store_attrs = {t.attr for n in walk_no_nested(cpl.methods["__init__"].node) if isinstance(n, ast.Assign) for t in n.targets
+                   if is_self_attr(t) and isinstance(n.value, ast.Call) and call_name(n.value) == "set"} if "__init__" in cpl.methods else set()
+    key = "util/loader.py::CallPathLoader.save::replaces the stored set"
+    repl = [n for n in walk_no_nested(sv.node) if isinstance(n, ast.Assign) and any(is_self_attr(t) and t.attr in store_attrs for t in n.targets)
+            and any(isinstance(x, ast.Name) and x.id == prm for x in ast.walk(n.value))]
+    merges = [n for n in walk_no_nested(sv.node) if (isinstance(n, ast.Call) and isinstance(n.func, ast.Attribute) and n.func.attr in ("update", "add", "union")
+                                                     and is_self_attr(n.func.value) and n.func.value.attr in store_attrs)
+              or (isinstance(n, ast.AugAssign) and is_self_attr(n.target) and n.target.attr in store_attrs)]
+    if merges:
+        rep.violation("C19.R6", key, "util/loader.py", merges[0].lineno,
+                      f"CallPathLoader.save merges the new set into the old one (`{norm(merges[0])[:70]}`): a path the manager evicted because a "
+                      f"longer one arrived, or removed, stays in the loader and is exported -- the stored paths are no longer exactly the maximal ones")
+    elif repl:
+        rep.holds("C19.R6", key, "util/loader.py", repl[0].lineno, f"`{norm(repl[0])}`")
+    else:
+        rep.unknown("C19.R6", key, "util/loader.py", sv.node.lineno, "save() not in the recognised shape")
     from ..generic import check_accumulators
     check_accumulators(model, rep, "C19.R5", [FILE], C19_ADJUDICATED,
                        "stored paths or trie nodes are missed, so the store no longer holds exactly the maximal paths", 2,
@@ -358,6 +383,9 @@ C19_ADJUDICATED = {
 }
 
 MUTANTS = [
+    ("loader-save-merges", "util/loader.py",
+     lambda src: __import__("sa.mutate", fromlist=["x"]).text_replace(src, "    def save(self, all_paths: set):\n        self.all_paths = all_paths", "    def save(self, all_paths: set):\n        self.all_paths.update(all_paths)"),
+     "CallPathLoader.save::replaces the stored set"),
     ("add-no-terminal", FILE, _m("PathTrie", "add_path", _is_assign_attr("is_terminal", True)), "PathTrie.add_path::self.paths.add"),
     ("remove-no-mark", FILE, _m("PathTrie", "remove_path", lambda st: isinstance(st, ast.Expr) and isinstance(st.value, ast.Call)
                                 and call_name(st.value) == "self._mark_non_terminal"), "PathTrie.remove_path"),
